@@ -37,7 +37,10 @@ SCRIPTS = {
 }
 TEXTS = ["note", "a -- b", "---- sec ----", "create table x (y int);", "a, b (c) ; d", "CREATE ALTER DROP", "select * from t where a = 1", "",
          "ALTER", "x ; y ;", "(", "GO", "see note (1", "k; drop table t9; create table t9 (z int);", "later) ok",
-         "the customer's data", "it's (a, b), isn't it", "step 1(( open", "closing )) twice"]
+         "the customer's data", "it's (a, b), isn't it", "step 1(( open", "closing )) twice",
+         # characters that str.splitlines() treats as line ends but the parser must not: form feed, vertical tab, NEL, U+2028; and a multi-line
+         # block-comment line that begins with a skip word / a statement word
+         "page\x0cbreak zz int", "a\x0bb text", "nel\x85after it", "sep\u2028rest int", "Use the surrogate key", "insert rows later", "Create it first"]
 MARKED_TEXTS = ["/* -- x */", "a /* b", "x */ y", "# z", "-- /* x", "a /* b */"]
 WHOLE = {"--": lambda t: ["-- %s" % t], "--nosp": lambda t: ["--%s" % t], "#": lambda t: ["# %s" % t], "b1": lambda t: ["/* %s */" % t],
          "b1nosp": lambda t: ["/*%s*/" % t], "b2": lambda t: ["/* %s" % t, "*/"], "b3": lambda t: ["/*", " %s" % t, "*/"],
@@ -201,7 +204,9 @@ def evaluate(case):
             diffs.append(vdiff("entities", sym, entities(b[1]), ent))
         # (comment text is compared modulo blanks, comment markers and the escaped line breaks the scanner leaves inside merged lines)
         nrm = lambda x: re.sub(r"\s+", "", MARK.sub("", x.replace("\\n", " ").replace("\\t", " ")))  # noqa
-        ins = [nrm(x) for x in inserted]
+        # (the library reports text in its unicode_escape form - C07's "non-ascii" finding, not a C08 matter: both forms are accepted)
+        esc = lambda x: x.encode("unicode_escape").decode("ascii").replace("\\x", "\\0") if any(ord(ch) > 126 or (ord(ch) < 32 and ch not in "\n\t") for ch in x) else x  # noqa
+        ins = [nrm(x) + "\0" + nrm(esc(x)) for x in inserted]
         k = 0
         for c in com:
             if not isinstance(c, str):
